@@ -208,7 +208,8 @@ func scan2(s, f string, i, j *int) bool {
 // "+after-genuine": the same process first verifies with the genuine keys (history of length 2);
 // "+then-genuine": afterwards the genuine keys must still be accepted.
 var keyAlterations = []string{"same-id-foreign-material", "map-key-differs", "extra-unsigned-key", "private-half-supplied",
-	"same-id-foreign-material+after-genuine", "same-id-foreign-material+then-genuine", "extra-unsigned-key+after-genuine"}
+	"same-id-foreign-material+after-genuine", "same-id-foreign-material+then-genuine", "extra-unsigned-key+after-genuine",
+	"no-key-map", "no-key-map+after-genuine"}
 
 func silence() func() {
 	devnull, _ := os.OpenFile(os.DevNull, os.O_WRONLY, 0)
@@ -522,6 +523,10 @@ func prepare(c *mcx.Ctx, cs Case) prepared {
 			k := gen.Key("ed4")
 			p.keys[k.ID] = k.Pub
 			p.expect = "reject"
+		case "no-key-map":
+			// no key map at all (nil) instead of an empty one: still "no layout key supplied"
+			p.keys = nil
+			p.expect = "reject"
 		case "private-half-supplied":
 			k := gen.Key(cs.V[0])
 			p.keys[k.ID] = k.Full
@@ -756,7 +761,7 @@ func init() {
 		ID: "C01", Run: run, Replay: replay,
 		Rule: "full product: layout shape (1 step; 2 steps; thorough: + root CAs and certificate constraints - each with a marker inspection) x {legacy, DSSE} x {InTotoVerify, InTotoVerifyWithDirectory} x [ all 8 signer subsets of {RSA, ECDSA, Ed25519} x all 16 verifier subsets of those plus a foreign key, unaltered; " +
 			"every single-point alteration of the signed content found by a reflective walk (string changed, slice element dropped/duplicated/appended, map entry dropped/added, int +-1), applied to the in-memory object and to the file under the old signatures; " +
-			"signature-list alterations (entry dropped, first/middle/last byte corrupted, signature of another layout by the same key, emptied, key ids / signatures of two entries swapped, duplicate entry, empty list); supplied-key alterations (same id with foreign material, extra key that did not sign, map key differs, private half supplied); wrapper-document alterations (a second content member - signed / payload - with forged step-less content and an inspection of its own, named like the genuine one up to letter case: 3 spellings of the genuine x 3 of the forged x before/after) ]; " +
+			"signature-list alterations (entry dropped, first/middle/last byte corrupted, signature of another layout by the same key, emptied, key ids / signatures of two entries swapped, duplicate entry, empty list); supplied-key alterations (same id with foreign material, extra key that did not sign, map key differs, private half supplied, no key map at all); wrapper-document alterations (a second content member - signed / payload - with forged step-less content and an inspection of its own, named like the genuine one up to letter case: 3 spellings of the genuine x 3 of the forged x before/after) ]; " +
 			"each case under every order of the layout-key loop and with a complete, an empty and a garbage link directory. non-trivial = at least one verifier key or an alteration. states = cases, transitions = verifications.",
 		Assumptions: []string{
 			"soundness is demanded (accept only if ...); acceptance of an unaltered layout carrying a correctly labelled valid signature for every supplied key is demanded as the non-vacuity baseline; mislabelled-but-present signatures are don't-care",
